@@ -31,7 +31,11 @@ def rooted_in_param_field(e, field, param=1):
 
 def is_call(e, suffix):
     e = e.strip()
-    return e.kind == 'call' and name_matches(e.op, suffix)
+    if e.kind != 'call':
+        return False
+    if hasattr(suffix, 'key'):
+        return e.info.get('key') == suffix.key
+    return name_matches(e.op, suffix)
 
 
 def call_arg(e, i):
